@@ -447,7 +447,11 @@ func vals(rows []row) []int64 {
 // ---------------------------------------------------------------------------------------------
 // the row plans
 
-func measureSchema(float bool) *databasev1.Measure {
+func measureSchema(float, entityKeys bool) *databasev1.Measure {
+	entity := []string{"id"}
+	if entityKeys { // group-by (k1,k2) then equals the entity: the plans group by sorting (groupSortIterator)
+		entity = []string{"k1", "k2"}
+	}
 	ft := databasev1.FieldType_FIELD_TYPE_INT
 	if float {
 		ft = databasev1.FieldType_FIELD_TYPE_FLOAT
@@ -461,7 +465,7 @@ func measureSchema(float bool) *databasev1.Measure {
 		}}},
 		Fields: []*databasev1.FieldSpec{{Name: "v", FieldType: ft,
 			EncodingMethod: databasev1.EncodingMethod_ENCODING_METHOD_GORILLA, CompressionMethod: databasev1.CompressionMethod_COMPRESSION_METHOD_ZSTD}},
-		Entity: &databasev1.Entity{TagNames: []string{"id"}},
+		Entity: &databasev1.Entity{TagNames: entity},
 	}
 }
 
@@ -557,13 +561,22 @@ func (q query) request() *measurev1.QueryRequest {
 }
 
 // a data node (or the stand-alone server): banyand/query/processor.go executeMeasurePlan + collectInternalDataPoints
-func runNode(req *measurev1.QueryRequest, emitPartial bool, rows []row, float bool) (out []*measurev1.InternalDataPoint, err error) {
+func runNode(req *measurev1.QueryRequest, emitPartial bool, rows []row, float, entityKeys bool) (out []*measurev1.InternalDataPoint, err error) {
 	defer func() {
 		if r := recover(); r != nil {
 			err = fmt.Errorf("panic: %v", r)
 		}
 	}()
-	ms := measureSchema(float)
+	ms := measureSchema(float, entityKeys)
+	if entityKeys { // the engines deliver series by series
+		rows = append([]row(nil), rows...)
+		sort.SliceStable(rows, func(i, j int) bool {
+			if rows[i].g1 != rows[j].g1 {
+				return rows[i].g1 < rows[j].g1
+			}
+			return rows[i].g2 < rows[j].g2
+		})
+	}
 	s, err := lm.BuildSchema(ms, nil)
 	if err != nil {
 		return nil, err
@@ -592,12 +605,13 @@ func (f future) GetAll() ([]bus.Message, error) { return []bus.Message{f.m}, nil
 
 // transport stand-in: Broadcast reaches the listed nodes; a node is (shard, replica)
 type cluster struct {
-	err       error
-	cache     map[int][]byte // shard -> serialised response of a node holding that shard
-	rowsOf    func(shard int) []row
-	nodes     [][2]int
-	float     bool
-	nodeCalls int
+	err        error
+	cache      map[int][]byte // shard -> serialised response of a node holding that shard
+	rowsOf     func(shard int) []row
+	nodes      [][2]int
+	float      bool
+	entityKeys bool
+	nodeCalls  int
 }
 
 func (c *cluster) Broadcast(_ time.Duration, _ bus.Topic, msg bus.Message) ([]bus.Future, error) {
@@ -609,7 +623,7 @@ func (c *cluster) Broadcast(_ time.Duration, _ bus.Topic, msg bus.Message) ([]bu
 	for _, n := range c.nodes {
 		data, ok := c.cache[n[0]]
 		if !ok {
-			dps, err := runNode(ireq.Request, ireq.AggReturnPartial, c.rowsOf(n[0]), c.float)
+			dps, err := runNode(ireq.Request, ireq.AggReturnPartial, c.rowsOf(n[0]), c.float, c.entityKeys)
 			if err != nil {
 				c.err = err
 				return nil, err
@@ -640,7 +654,7 @@ func runLiaison(req *measurev1.QueryRequest, c *cluster) (out []*measurev1.DataP
 			err = fmt.Errorf("panic: %v", r)
 		}
 	}()
-	s, err := lm.BuildSchema(measureSchema(c.float), nil)
+	s, err := lm.BuildSchema(measureSchema(c.float, c.entityKeys), nil)
 	if err != nil {
 		return nil, err
 	}
@@ -715,6 +729,18 @@ func repConfigs(shards []int, maxRep int) [][]int {
 		out = next
 	}
 	return out
+}
+
+// SUM, COUNT and MEAN change when an answer is counted twice: every replica assignment is tried.  MIN and MAX are
+// idempotent: the single-replica assignment and one seeded assignment.
+func repsFor(f int, float bool, reps [][]int, rnd *rand.Rand) [][]int {
+	if float {
+		return [][]int{reps[rnd.Intn(len(reps))]}
+	}
+	if f == fMIN || f == fMAX {
+		return [][]int{reps[0], reps[rnd.Intn(len(reps))]}
+	}
+	return reps
 }
 
 func nodesOf(shards []int, rep []int, rnd *rand.Rand) [][2]int {
@@ -867,7 +893,9 @@ func checkPlans(sk *sink, b, step int, a *accs, obs map[string]any, pv pkgVerdic
 		return out
 	}
 	reps := repConfigs(shards, cfg.maxRep)
-	ctxOf := func(nodes [][2]int) string { return fmt.Sprintf("rows %v, answers from (shard,replica) %v", a.rows, nodes) }
+	ctxOf := func(nodes [][2]int) string {
+		return fmt.Sprintf("rows %v, answers from (shard,replica) %v", a.rows, nodes)
+	}
 	fail := func(what string, err error) {
 		sk.inconclusive(fmt.Sprintf("behaviour %d step %d: %s: %v", b, step, what, err))
 	}
@@ -875,7 +903,7 @@ func checkPlans(sk *sink, b, step int, a *accs, obs map[string]any, pv pkgVerdic
 	for _, float := range []bool{false, true} {
 		for f := 0; f < 5; f++ {
 			q := query{f: f}
-			idps, err := runNode(q.request(), false, a.rows, float)
+			idps, err := runNode(q.request(), false, a.rows, float, false)
 			if err != nil {
 				fail("stand-alone plan", err)
 				return
@@ -883,11 +911,7 @@ func checkPlans(sk *sink, b, step int, a *accs, obs map[string]any, pv pkgVerdic
 			sk.inc("plan_executions")
 			checkScalar(sk, b, step, "plan-standalone-"+fnames[f], pv, f, float, dpsOf(idps), sres, fmt.Sprintf("stand-alone, rows %v", a.rows))
 			cache := map[int][]byte{}
-			rr := reps
-			if float { // the float instantiation through the coordinator: one replica assignment (seeded)
-				rr = [][]int{reps[rnd.Intn(len(reps))]}
-			}
-			for _, rep := range rr {
+			for _, rep := range repsFor(f, float, reps, rnd) {
 				c := &cluster{cache: cache, rowsOf: rowsOf, nodes: nodesOf(shards, rep, rnd), float: float}
 				dps, err := runLiaison(q.request(), c)
 				if err != nil {
@@ -912,7 +936,7 @@ func checkPlans(sk *sink, b, step int, a *accs, obs map[string]any, pv pkgVerdic
 	groupsOK := true
 	for f := 0; f < 5; f++ {
 		q := query{f: f, grouped: true}
-		idps, err := runNode(q.request(), false, a.rows, false)
+		idps, err := runNode(q.request(), false, a.rows, false, false)
 		if err != nil {
 			fail("stand-alone grouped plan", err)
 			return
@@ -920,7 +944,7 @@ func checkPlans(sk *sink, b, step int, a *accs, obs map[string]any, pv pkgVerdic
 		sk.inc("plan_executions")
 		groupsOK = checkGrouped(sk, b, step, "plan-standalone-grouped", f, dpsOf(idps), ges, fmt.Sprintf("stand-alone group-by (k1,k2) %s, rows %v", fnames[f], a.rows)) && groupsOK
 		cache := map[int][]byte{}
-		for _, rep := range reps {
+		for _, rep := range repsFor(f, false, reps, rnd) {
 			c := &cluster{cache: cache, rowsOf: rowsOf, nodes: nodesOf(shards, rep, rnd)}
 			dps, err := runLiaison(q.request(), c)
 			if err != nil {
@@ -931,6 +955,23 @@ func checkPlans(sk *sink, b, step int, a *accs, obs map[string]any, pv pkgVerdic
 			sk.add("plan_executions", c.nodeCalls)
 			groupsOK = checkGrouped(sk, b, step, "plan-distributed-grouped", f, dps, ges, "group-by (k1,k2) "+fnames[f]+", "+ctxOf(c.nodes)) && groupsOK
 		}
+		// the same when (k1,k2) is the entity: the data nodes group by sorting instead of hashing
+		idps, err = runNode(q.request(), false, a.rows, false, true)
+		if err != nil {
+			fail("stand-alone grouped plan (entity keys)", err)
+			return
+		}
+		sk.inc("plan_executions")
+		groupsOK = checkGrouped(sk, b, step, "plan-standalone-grouped-by-entity", f, dpsOf(idps), ges, fmt.Sprintf("stand-alone group-by entity (k1,k2) %s, rows %v", fnames[f], a.rows)) && groupsOK
+		ce := &cluster{cache: map[int][]byte{}, rowsOf: rowsOf, nodes: nodesOf(shards, reps[rnd.Intn(len(reps))], rnd), entityKeys: true}
+		edps, err := runLiaison(q.request(), ce)
+		if err != nil {
+			fail("distributed grouped plan (entity keys)", err)
+			return
+		}
+		sk.inc("plan_executions")
+		sk.add("plan_executions", ce.nodeCalls)
+		groupsOK = checkGrouped(sk, b, step, "plan-distributed-grouped-by-entity", f, edps, ges, "group-by entity (k1,k2) "+fnames[f]+", "+ctxOf(ce.nodes)) && groupsOK
 	}
 	if !groupsOK {
 		return // a ranking over wrong groups only echoes the mismatch above
@@ -943,7 +984,7 @@ func checkPlans(sk *sink, b, step int, a *accs, obs map[string]any, pv pkgVerdic
 		for _, x := range vlib.List(m, "vals") {
 			want = append(want, int64(vlib.AsInt(x)))
 		}
-		idps, err := runNode(q.request(), false, a.rows, false)
+		idps, err := runNode(q.request(), false, a.rows, false, false)
 		if err != nil {
 			fail("stand-alone top plan", err)
 			return
@@ -1153,11 +1194,7 @@ func checkVec(sk *sink, b, step int, a *accs, obs map[string]any, pv pkgVerdict,
 					}
 					frames[s] = body
 				}
-				rr := reps
-				if float {
-					rr = [][]int{reps[rnd.Intn(len(reps))]}
-				}
-				for _, rep := range rr {
+				for _, rep := range repsFor(f, float, reps, rnd) {
 					nodes := nodesOf(shards, rep, rnd)
 					var bodies [][]byte
 					for _, n := range nodes {
@@ -1359,7 +1396,7 @@ func replayTop(sk *sink, b vlib.Behaviour) {
 					rows[j] = row{id: j, v: v, s: 0, g1: 1, g2: 1}
 				}
 				q := query{f: -1, topN: e.n, bottom: e.dir == "bottom", withID: true}
-				idps, err := runNode(q.request(), false, rows, false)
+				idps, err := runNode(q.request(), false, rows, false, false)
 				if err != nil {
 					sk.inconclusive(fmt.Sprintf("behaviour %d step %d: top plan: %v", b.ID, i, err))
 					return
@@ -1542,7 +1579,7 @@ func extremes(sk *sink, n int, only int) {
 			}
 			// the plans: one place vs partitioned (every shard answered once), metamorphic
 			q := query{f: f}
-			idps, err := runNode(q.request(), false, rows, false)
+			idps, err := runNode(q.request(), false, rows, false, false)
 			if err != nil {
 				sk.inconclusive(fmt.Sprintf("extreme case %d: %v", c, err))
 				return
